@@ -149,12 +149,16 @@ class Renderer:
         toks = self.primary(x)
         return toks
 
-    # primary: token-level expression with at most one postfix operator
+    # primary: token-level expression followed by any number of postfix operators
     def primary(self, t):
         if kind(t) == "post":
             x = t[1]
-            if kind(x) in ("un", "bin", "post", "tern"):
+            if kind(x) in ("un", "bin", "tern"):
                 xt = self.wrap(self.expr(x))
+            elif kind(x) == "post":
+                xt = self.primary(x)
+                if self.style != "min":
+                    xt = self.maybe(xt)
             else:
                 xt = self.token(x)
             return xt + [unhx(t[2])]
